@@ -27,6 +27,9 @@ pub struct Case {
     /// optional joint limits given as distances below / above the joint vector (0 = the joint sits exactly on that limit)
     #[serde(default)]
     pub window: Option<([f64; 6], [f64; 6])>,
+    /// call history: a Jacobian of this other robot at the same joints, and one of the same robot with another step, are computed first
+    #[serde(default)]
+    pub other: Option<RobotSpec>,
 }
 
 /// Geometric Jacobian from the model: column i = sign_i * (a_i x (p_tcp - o_i); a_i).
@@ -86,8 +89,9 @@ impl Property for C15 {
             0u8..3,
             prop::array::uniform6(-3.0..3.0f64),
             prop_oneof![2 => Just(None), 1 => (prop::array::uniform6(prop_oneof![1 => Just(0.0), 1 => Just(1e-6), 3 => 0.01..2.0f64]), prop::array::uniform6(prop_oneof![1 => Just(0.0), 1 => Just(1e-6), 3 => 0.01..2.0f64])).prop_map(Some)],
+            prop_oneof![3 => Just(None), 1 => robot_sane(DofChoice::Six).prop_map(Some)],
         )
-            .prop_map(|(robot, tool, base, j, eps, twist, window)| Case { robot, tool, base, j, eps, twist, window })
+            .prop_map(|(robot, tool, base, j, eps, twist, window, other)| Case { robot, tool, base, j, eps, twist, window, other })
             .boxed()
     }
     fn check(&self, c: &Case, ctx: &mut Ctx) -> Res {
@@ -112,6 +116,12 @@ impl Property for C15 {
                 opw_c(r, rs_opw_kinematics::constraints::Constraints::new(from, to, 0.0))
             }
         };
+        if let Some(o) = &c.other {
+            let ko = opw(o);
+            let _ = no_panic(|| Jacobian::new(&ko, &c.j, eps)).map_err(|m| viol!("no panic", "Jacobian::new (other robot): {}", m))?;
+            let _ = no_panic(|| Jacobian::new(&inner, &c.j, [1e-7, 1e-6, 1e-5][((c.eps + 1) % 3) as usize])).map_err(|m| viol!("no panic", "Jacobian::new (other step): {}", m))?;
+            ctx.class("history: Jacobians of another robot / with another step at the same joints first");
+        }
         let jac = no_panic(|| match (&c.tool, &c.base) {
             (None, None) => Jacobian::new(&inner, &c.j, eps),
             (Some(t), None) => Jacobian::new(&Tool { robot: Arc::new(inner), tool: to_na(&t.iso()) }, &c.j, eps),
@@ -151,7 +161,13 @@ impl Property for C15 {
         let angn = norm(&ang);
         if angn < PI - 1e-6 {
             let rot = nalgebra::UnitQuaternion::from_scaled_axis(nalgebra::Vector3::new(ang[0], ang[1], ang[2]));
-            let iso = nalgebra::Isometry3::from_parts(nalgebra::Translation3::new(lin[0], lin[1], lin[2]), rot);
+            let mut iso = nalgebra::Isometry3::from_parts(nalgebra::Translation3::new(lin[0], lin[1], lin[2]), rot);
+            // the same rotation is also handed over in its other quaternion representative (-q, negative scalar part), as it
+            // comes out of composing rotations; the case's own numbers decide which
+            if (lin[0] * 1e3).abs().fract() < 0.5 && angn > 1e-9 {
+                iso.rotation = nalgebra::UnitQuaternion::new_unchecked(-iso.rotation.into_inner());
+                ctx.class("isometry entry points: quaternion with negative scalar part");
+            }
             let t_iso = jac.torques(&iso);
             for i in 0..6 {
                 ensure!((t_iso[i] - tq[i]).abs() <= 1e-9 * (1.0 + reach) * (1.0 + fn_), "isometry- and vector-based torque entry points agree", "joint {}: {} vs {}", i + 1, t_iso[i], tq[i]);
